@@ -66,7 +66,7 @@ Lemma pdf_tab_patterns_wellformed :
   forallb (pdfs_pattern_ok 0) pdfs_cluster0 = true /\
   forallb (pdfs_pattern_ok 3) pdfs_cluster3 = true /\
   forallb (pdfs_pattern_ok 6) pdfs_cluster6 = true.
-Proof. repeat split; vm_cast_no_check (eq_refl true). Qed.
+Proof. split; [|split]; vm_cast_no_check (eq_refl true). Qed.
 
 Lemma pdf_tab_pattern_ok t p :
   0 <= t < 3 -> In p (pdfs_cluster t) -> pdfs_pattern_ok (3 * t) p = true.
@@ -81,7 +81,7 @@ Qed.
 (* pairwise distinct within a cluster: pattern -> value is a function *)
 Lemma pdf_tab_patterns_nodup_b :
   pdf_nodupb pdfs_cluster0 = true /\ pdf_nodupb pdfs_cluster3 = true /\ pdf_nodupb pdfs_cluster6 = true.
-Proof. repeat split; vm_cast_no_check (eq_refl true). Qed.
+Proof. split; [|split]; vm_cast_no_check (eq_refl true). Qed.
 
 Lemma pdf_tab_patterns_nodup t : 0 <= t < 3 -> NoDup (pdfs_cluster t).
 Proof.
